@@ -151,6 +151,20 @@ class Report(object):
         replay_paths = []
         if fresh:
             rc = 1
+            bysig = {}
+            for v in fresh:
+                bysig[v['sig']] = bysig.get(v['sig'], 0) + 1
+            lines.append('violation signatures (kept cases): ' + ', '.join('%s x%d' % kv for kv in sorted(bysig.items())))
+            # write replays round-robin over signatures so that every mechanism gets an artefact
+            order = []
+            pools = {}
+            for v in fresh:
+                pools.setdefault(v['sig'], []).append(v)
+            while any(pools.values()):
+                for k in list(pools):
+                    if pools[k]:
+                        order.append(pools[k].pop(0))
+            fresh = order
             d = os.path.join(REPLAY_DIR, self.pid)
             os.makedirs(d, exist_ok=True)
             for n, v in enumerate(fresh[:20]):
